@@ -365,6 +365,10 @@ def diagnose_missing_key(
         got: List of keys that were given by the user
         expected_type: A user-defined class we expected to get
     """
+    # keys that are not scalars (sequences or mappings) cannot be suggested
+    # or listed
+    got = [g for g in got if isinstance(g, str)]
+
     a = '"{}"'.format(name)
     if '_' in name:
         a += ' or maybe "{}"'.format(
@@ -402,6 +406,8 @@ def diagnose_extraneous_key(
         got: List of keys that were given by the user
         expected_type: A user-defined class we expected to get
     """
+    got = [g for g in got if isinstance(g, str)]
+
     expected_msg = 'Found a key "{}", which is not allowed here.'.format(name)
 
     opt_keys = [
